@@ -285,6 +285,37 @@ def back_decisions(ck, P, R="SIB/back~dispatch"):
     ck.floor(R + ":decisions", n, 6)
 
 
+def fast_distance(ck, P, R="GUARD/back-fast-distance"):
+    """In inflateBack the output buffer is the window.  A match may reach behind the bytes produced since the last flush only
+    if the window has been flushed at least once (it then holds a full window of older data), and never by more than the window
+    size.  Both copies from the window in the fast loop sit behind exactly these two tests - `have` against the window size
+    and the distance against the window size - and back() does not give `have` another meaning before it enters the fast loop."""
+    f = P.fn(FAST_BACK)
+    b = P.fn(BACK)
+    if not (ck.anchor("fn inflate_fast_back", f) and ck.anchor("fn back", b)):
+        return
+    ck.use_fn(f)
+    calls = f.live_calls(r"Writer::extend_from_window_back$")
+    if not ck.anchor("window copy in inflate_fast_back", bool(calls)):
+        return
+    for i, c in enumerate(calls):
+        gs = shape.dominating_sigs(f, c.bb)
+        wrapped = any(g.rel in ("Le", "Lt") and any(x.endswith("Window::have") for x in g.calls) and
+                      (any(x.endswith("Window::buffer_size") or x.endswith("Window::size") for x in g.calls) or "window_size" in g.names) for g in gs)
+        bounded = any(g.rel in ("Le", "Lt") and ("dist" in g.names or any(x.endswith("BitReader::bits") for x in g.calls)) and
+                      (any(x.endswith("Window::buffer_size") or x.endswith("Window::size") for x in g.calls) or "window_size" in g.names) for g in gs)
+        ck.decide(wrapped and bounded, R, "fast_back:window-copy#%d" % i, "copy from older window data only after a flush and within one window",
+                  "inflate_fast_back copies from the window without requiring that it has been flushed (have == window size) and that the "
+                  "distance is at most the window size: a distance reaching before the first output byte is accepted and stale bytes of the "
+                  "caller's buffer are delivered", where(f, c.line))
+    sets = b.live_calls(r"Window::set_have$")
+    fast = b.live_calls(r"infback::inflate_fast_back$")
+    pre = [c for c in sets if fast and any(flow.reaches_avoiding(b, [c.bb], [k.bb], cut_blocks=[]) and b.dominates(c.bb, k.bb) for k in fast)]
+    ck.decide(not pre, R, "back:have-before-fast", "`have` keeps its meaning (0, or the window size once flushed) on entry to the fast loop",
+              "back() stores another value in window.have right before the fast loop: the fast loop then takes bytes of the current pass for "
+              "older history", where(b, pre[0].line if pre else None))
+
+
 def who(ck, P):
     R = "WHO/unpadded-window"
     for path in (BACK, FAST_BACK):
@@ -415,6 +446,7 @@ def run(ck):
     ck.floor("ATOM/rejection", n, 17)
     decoders.check_table_fields(ck, P, "ATOM/header-fields", impls=(BACK,))
     back_decisions(ck, P)
+    fast_distance(ck, P)
     try:
         a = consts.get(P, Z + "inflate::State::dispatch::ORDER")
         b = consts.get(P, Z + "inflate::infback::back::ORDER")
